@@ -876,6 +876,20 @@ def r03_11(ctx: Ctx):
     return obs
 
 
+def r03_12(ctx: Ctx):
+    """R03.12 every deme that was constructed (its first population is evaluated by the constructor) is registered in the tree's levels on every path: a deme built and then dropped has made evaluations that no total counts."""
+    from . import c07
+
+    obs = []
+    for o in c07.r07_1(ctx):
+        if (o.construct or "").startswith(("register-level", "register-all-paths")):
+            o.rule = "R03.12"
+            obs.append(o)
+    if not obs:
+        obs.append(ctx.ob("R03.12", None, None, subject="DemeTree._do_sprout", loc="-", status=INCONCLUSIVE, detail="the registration of sprouted demes was not analysed (R07.1 found no registration site)", construct="register"))
+    return obs
+
+
 RULES = [
     ("R03.1", r03_1, 8),
     ("R03.2", r03_2, 16),
@@ -888,4 +902,5 @@ RULES = [
     ("R03.9", r03_9, 1),
     ("R03.10", r03_10, 1),
     ("R03.11", r03_11, 3),
+    ("R03.12", r03_12, 1),
 ]
